@@ -21,6 +21,30 @@ Theorem C20_object_unchanged_by_calls : forall (P D O : Type) (apply : P -> D ->
 Proof. exact object_unchanged_by_calls. Qed.
 Print Assumptions C20_object_unchanged_by_calls.
 
+(* objects MAY carry hidden state (a cache, a fitted estimator kept from an earlier call, a keyword left behind by a call
+   that raised).  What the call-sequence test states - the probe returns, after every history, what a fresh object
+   returns - is equivalent to: no hidden state that some history can produce influences any output *)
+Theorem C20_probe_test_characterises_statelessness : forall (P H D O : Type) (out : P -> H -> D -> O)
+    (next : P -> H -> D -> H) (h0 : P -> H) p,
+  state_blind out next h0 p <-> forall ds probe, probe_after out next h0 p ds probe = fresh out h0 p probe.
+Proof. exact probe_test_characterises_statelessness. Qed.
+Print Assumptions C20_probe_test_characterises_statelessness.
+
+(* ... and such an object is exactly the stateless model above: every sequence returns the fresh outputs *)
+Theorem C20_blind_objects_are_the_stateless_model : forall (P H D O : Type) (out : P -> H -> D -> O)
+    (next : P -> H -> D -> H) (h0 : P -> H) p ds,
+  state_blind out next h0 p -> run_hidden P H D O out next p (h0 p) ds = map (fresh out h0 p) ds.
+Proof. exact blind_objects_are_the_stateless_model. Qed.
+Print Assumptions C20_blind_objects_are_the_stateless_model.
+
+(* non-vacuity, both ways: a call counter that is never read is invisible; a keyword that a failed call leaves behind
+   (hidden state = the last d that was 0) is caught by the history [0] *)
+Example C20_hidden_state_examples :
+  state_blind (fun (p h d : nat) => p + d) (fun _ h _ => S h) (fun _ => 0%nat) 5%nat /\
+  probe_after (fun (p h d : nat) => p + d + h) (fun _ h d => if Nat.eqb d 0 then 7%nat else h) (fun _ => 0%nat) 5%nat [0%nat] 3%nat
+    <> fresh (fun (p h d : nat) => p + d + h) (fun _ => 0%nat) 5%nat 3%nat.
+Proof. split; [intros ds d; reflexivity|vm_compute; discriminate]. Qed.
+
 Example C20_example :
   snd (run (fun (p : nat) (d : nat) => if Nat.eqb d 0 then None else Some (p + d)) 10 [3; 0; 3; 7; 3]) =
   [Some 13; None; Some 13; Some 17; Some 13].
